@@ -121,7 +121,8 @@ pub fn check_c13_all(set: &ArtifactSet, opts: &C13Options) -> (C13Stats, Vec<Fai
                 // share every generated identifier `A__b__c__…`
                 let collision = m.imports.iter().enumerate().any(|(i, a)| {
                     m.imports.iter().skip(i + 1).any(|b| {
-                        matches!((&a.target, &b.target), (Target::Inside(pa), Target::Inside(pb)) if pa != pb)
+                        matches!((&a.target, &b.target), (Target::Inside(pa), Target::Inside(pb))
+                            if pa != pb && crate::collapses_to_same_identifier(pa, pb))
                             && a.names.iter().any(|na| b.names.iter().any(|nb| na.local == nb.local && na.local.contains("__")))
                     })
                 });
